@@ -126,14 +126,43 @@ def make_sdf(rng):
         ports = (p, p)
         ptxt = f" {p}"
     elif r < 0.55:
-        lo = rng.choice([1, 1000, 65000, rng.randrange(1, 65000)])
-        hi = min(65535, lo + rng.choice([1, 5, 99]))
+        lo = rng.choice([1, 1000, 65000, 65436, 65500, 65534, rng.randrange(1, 65000)])
+        hi = min(65535, lo + rng.choice([1, 5, 35, 99]))
         ports = (lo, hi)
         ptxt = f" {lo}-{hi}"
     else:
         ptxt = ""
     text = f"permit out {pr[0]} from {net[0]}{ptxt} to assigned"
     return {"text": text, "rip": net[1], "rmask": net[2], "proto": pr[1], "ports": ports}
+
+
+APP_FLOWS = [
+    # (text, direction keyword, proto, src endpoint, dst endpoint); endpoint = (kind, ip, mask, ports)
+    ("permit out ip from any 5000 to any", "out", None, ("any", 0, 0, (5000, 5000)), ("any", 0, 0, None)),
+    ("permit in ip from any to any 8080-8084", "in", None, ("any", 0, 0, None), ("any", 0, 0, (8080, 8084))),
+    ("permit out udp from 9.9.9.0/24 to assigned 6000-6003", "out", 17, ("net", (9 << 24) | (9 << 16) | (9 << 8), 0xFFFFFF00, None), ("assigned", 0, 0, (6000, 6003))),
+    ("permit in tcp from assigned 7000 to 1.1.1.1", "in", 6, ("assigned", 0, 0, (7000, 7000)), ("net", (1 << 24) | (1 << 16) | (1 << 8) | 1, 0xFFFFFFFF, None)),
+    ("permit out ip from any to any 1024-1100", "out", None, ("any", 0, 0, None), ("any", 0, 0, (1024, 1100))),
+    ("permit in ip from 10.0.0.0/8 65500-65535 to assigned", "in", None, ("net", 10 << 24, 0xFF000000, (65500, 65535)), ("assigned", 0, 0, None)),
+    ("permit out 132 from any to 8.8.8.8 53", "out", 132, ("any", 0, 0, None), ("net", (8 << 24) | (8 << 16) | (8 << 8) | 8, 0xFFFFFFFF, (53, 53))),
+    ("permit in udp from any 1-1 to assigned", "in", 17, ("any", 0, 0, (1, 1)), ("assigned", 0, 0, None)),
+]
+
+
+def app_table(rng):
+    """application id -> list of flow descriptions (one 'out' and one 'in' flow, or only one direction)"""
+    outs = [f for f in APP_FLOWS if f[1] == "out"]
+    ins = [f for f in APP_FLOWS if f[1] == "in"]
+    t = {}
+    for k in range(rng.choice([1, 2, 3])):
+        flows = []
+        if rng.random() < 0.85:
+            flows.append(rng.choice(outs))
+        if rng.random() < 0.85:
+            flows.append(rng.choice(ins))
+        rng.shuffle(flows)
+        t[f"app{k + 1}"] = flows
+    return t
 
 
 def ref_pdr(s, lseid, establishment=True):
@@ -160,6 +189,18 @@ def ref_pdr(s, lseid, establishment=True):
             p.update(f_dip=p["ue"], f_dip_m=M32)
         else:
             p.update(f_sip=p["ue"], f_sip_m=M32)
+    ap = s.get("app_sem")
+    if ap is not None:
+        # verbatim: source to packet source, destination to packet destination; "assigned" = the UE address
+        def res(e):
+            if e[0] == "assigned":
+                return (0, 0) if p["ue"] == 0 else (p["ue"], M32)
+            return (e[1], e[2])
+        if ap[2] is not None:
+            p.update(f_proto=ap[2], f_proto_m=0xFF)
+        (sipv, sipm), (dipv, dipm) = res(ap[3]), res(ap[4])
+        p.update(f_sip=sipv, f_sip_m=sipm, f_dip=dipv, f_dip_m=dipm,
+                 f_sp=list(ap[3][3]) if ap[3][3] else [0, 65535], f_dp=list(ap[4][3]) if ap[4][3] else [0, 65535])
     sd = s.get("sdf_sem")
     if sd is not None:
         if sd["proto"] is not None:
@@ -342,6 +383,7 @@ class Gen:
         self.nconn = nconn
         self.next_teid = 0x100
         self.dead = set()
+        self.pfds = {}         # conn -> app id -> flows (APP_FLOWS tuples)
 
     def _seq(self):
         self.seq = (self.seq + 1) & 0xFFFFFF
@@ -382,6 +424,7 @@ class Gen:
         for l in [l for l, s in self.sessions.items() if s["conn"] == conn]:
             del self.sessions[l]
         self.assoc.pop(conn, None)
+        self.pfds.pop(conn, None)
         self.next_lseid.pop(conn, None)     # a fresh PFCPConn (and random source) serves the peer from now on
 
     def restart(self):
@@ -390,14 +433,18 @@ class Gen:
         self.sessions.clear()
         self.assoc.clear()
         self.dead.clear()
+        self.pfds.clear()
         self.next_lseid.clear()
 
     def pfd(self, conn, table, bad=False):
+        """table: app id -> list of flow texts or APP_FLOWS tuples"""
         seq = self._seq()
         ies = []
+        if not bad:
+            self.pfds[conn] = {k: [f for f in v if isinstance(f, tuple)] for k, v in table.items()}
         for appid, flows in table.items():
             kids = [P.app_id(appid)]
-            ctx = [P.pfd_contents(flow=f) for f in flows]
+            ctx = [P.pfd_contents(flow=(f[0] if isinstance(f, tuple) else f)) for f in flows]
             if bad and appid == list(table)[-1]:
                 ctx.append(P.pfd_contents(url="http://x"))      # no flow description -> rejected
             kids.append(P.grouped(P.PFD_CONTEXT, *ctx))
@@ -467,6 +514,14 @@ class Gen:
         for n in range(npairs):
             pdrs += self.new_pdr_pair(n, qers=qids, **kw)
             fars += self.new_far_pair(n)
+        apps = self.pfds.get(conn) or {}
+        if apps and npairs >= 1 and r.random() < 0.6 and "sdf" not in pdrs[0]:
+            # the first pair is classified by a provisioned application id: uplink takes the first "out" flow, downlink the first "in" flow
+            appid = r.choice(sorted(apps))
+            for p_ in pdrs[:2]:
+                want = "out" if p_["iface"] == 0 else "in"
+                p_["appid"] = appid
+                p_["app_sem"] = next((f for f in apps[appid] if f[1] == want), None)
         qers = [self.new_qer(q) for q in qids]
         k = self.next_lseid.get(conn, 0) + 1
         self.next_lseid[conn] = k
@@ -487,6 +542,42 @@ class Gen:
             # the draw is not consumed when the association check fails
             self.next_lseid[conn] = k - 1
         return lseid
+
+    def establish_bad(self, conn):
+        """an establishment that is rejected AFTER the session was allocated and resources were taken: a valid
+        first PDR pair (CHOOSE F-TEID + UPF-allocated UE address) followed by a rule the agent must refuse.
+        Everything acquired so far has to be returned (C05) and nothing may be written (C03)."""
+        r = self.rng
+        seq = self._seq()
+        pdrs = list(self.new_pdr_pair(0, choose=True, chv4=self.cfg["ueip_alloc"] and r.random() < 0.5, with_sdf=False))
+        fars = list(self.new_far_pair(0))
+        qers = [self.new_qer(1)]
+        kind = r.choice(["pdr_no_far", "pdr_unknown_app", "pdr_cp_iface", "far_no_action", "far_fwd_missing", "qer_no_id"])
+        bad_p, bad_f, bad_q = [], [], []
+        if kind == "pdr_no_far":
+            bad_p = [{"id": 9, "prec": 5, "iface": 1, "ue": "chv4" if self.cfg["ueip_alloc"] else ip(10, 9, 9, 9)}]
+        elif kind == "pdr_unknown_app":
+            bad_p = [{"id": 9, "prec": 5, "iface": 1, "ue": "chv4" if self.cfg["ueip_alloc"] else ip(10, 9, 9, 9), "appid": "no-such-app", "far": 2}]
+        elif kind == "pdr_cp_iface":
+            bad_p = [{"id": 9, "prec": 5, "iface": 3, "ue": ip(10, 9, 9, 9), "far": 2}]
+        elif kind == "pdr_bad_ueip":
+            bad_p = [{"id": 9, "prec": 5, "iface": 1, "ue": "v6", "far": 2}]
+        elif kind == "far_no_action":
+            bad_f = [{"id": 9}]
+        elif kind == "far_fwd_missing":
+            bad_f = [{"id": 9, "action": 2}]
+        elif kind == "qer_no_id":
+            bad_q = [{"qfi": 9, "gate": (0, 0)}]
+        cp_seid = r.randrange(1 << 32)
+        ies = [P.node_id_v4(peer_ip(conn)), P.fseid(cp_seid, peer_ip(conn))]
+        ies += [pdr_ie(P.CREATE_PDR, p) for p in pdrs + bad_p] + [far_ie(P.CREATE_FAR, f) for f in fars + bad_f] + [qer_ie(P.CREATE_QER, q) for q in qers + bad_q]
+        assoc_ok = self.assoc.get(conn, False)
+        k = self.next_lseid.get(conn, 0) + 1
+        if assoc_ok:
+            self.next_lseid[conn] = k            # the draw is consumed, the session is rolled back
+        self.emit(conn, P.message(P.SE_REQ, seq, ies, seid=0),
+                  {"op": "est", "seq": seq, "req": P.SE_REQ, "wf": True, "expect": "reject" if assoc_ok else "reject-noassoc",
+                   "kind": "bad:" + kind, "lseid": (conn + 1) * 1000000 + k, "cp_seid": cp_seid, "pdrs": pdrs, "fars": fars, "qers": qers})
 
     def delete(self, lseid, conn=None):
         seq = self._seq()
@@ -595,6 +686,8 @@ def random_history(rng, cfg=None, length=14, restarts=True):
     for c in range(g.nconn):
         if rng.random() < 0.85:
             g.setup(c)
+            if rng.random() < 0.5:
+                g.pfd(c, app_table(rng))
     snap()
     for _ in range(length):
         r = rng.random()
@@ -606,6 +699,8 @@ def random_history(rng, cfg=None, length=14, restarts=True):
             c = rng.randrange(g.nconn)
             if c not in g.dead:
                 g.establish(c, node_id=P.node_id_v4(ip(9, 9, 9, 9)) if rng.random() < 0.5 else (None if not g.assoc.get(c) else P.node_id_fqdn("")))
+        elif r < 0.30 and conns_ok:
+            g.establish_bad(rng.choice(conns_ok))
         elif r < 0.60 and live:
             g.modify(rng.choice(live))
         elif r < 0.70 and live:
@@ -653,6 +748,10 @@ def mon_c01(case, intents, obs):
             out.append((f"panic:{o.get('func', '?')}:{kind}", f"event {i} panicked: {o['panic']} @ {o.get('frame')} in {o.get('func')}", i))
         if o.get("blocked"):
             out.append(("blocked", f"event {i} did not return (receive loop wedged)", i))
+        if o.get("runaway"):
+            out.append(("memory-runaway", f"event {i} left a goroutine allocating without bound (heap {o['runaway'] >> 20} MiB): the agent runs out of memory", i))
+    if obs and obs[0].get("skipped"):
+        return []
     if len(obs) < len(case["events"]) and not out:
         out.append(("history-cut", "harness stopped early without a recorded reason", len(obs)))
     return out
@@ -843,7 +942,7 @@ def mon_c03(case, intents, obs, views):
             if ms:
                 out.append(("store-not-request", f"event {i} ({it.get('op')}/{it.get('kind','')}): stored rules differ from the request's rules: {ms[:4]}", i))
         # rejected for unknown session / missing association: nothing written
-        if it.get("expect") in ("reject-unknown", "reject-noassoc"):
+        if it.get("expect") in ("reject-unknown", "reject-noassoc") or (it.get("op") == "est" and it.get("expect") == "reject"):
             if o["cmds"]:
                 out.append(("rejected-but-wrote", f"event {i}: request expected to be rejected ({it['expect']}) wrote {o['cmds'][:3]}", i))
             if prev_tables is not None and act != prev_tables:
@@ -1037,4 +1136,50 @@ def corpus_scenarios():
         snap()
         g.delete(lseid)
     run("F14", f14)
+    return out
+
+
+def mon_c06(case, intents, obs):
+    """C06 at the agent level: addresses handed to the control plane (Created PDR) lie strictly inside the pool, are
+    held by one live session only, stick to the session, and every address of the inventory belongs to a live
+    session (an address kept for a session that no longer exists makes the pool refuse while not every address is
+    held); free + held is the whole pool."""
+    out = []
+    cfg = case["cfg"]
+    if not cfg.get("ueip_alloc"):
+        return out
+    addr, ln = cfg["pool"].split("/")
+    a, b, c, d = (int(x) for x in addr.split("."))
+    ln = int(ln)
+    base = ip(a, b, c, d) & ((M32 << (32 - ln)) & M32)
+    size = 1 << (32 - ln)
+    given = {}
+    for i, (it, o) in enumerate(zip(intents, obs)):
+        if "panic" in o or o.get("blocked"):
+            break
+        pools = o["pools"]
+        live = {s["lseid"] for s in o["store"]}
+        inv = dict((k, v) for k, v in pools.get("ip_inv", []))
+        if len(inv) + pools.get("ip_free", 0) != size - 2:
+            out.append(("pool-not-conserved", f"event {i} ({it.get('op')}/{it.get('kind', '')}): free {pools.get('ip_free')} + held {len(inv)} != {size - 2}", i))
+        if len(set(inv.values())) != len(inv):
+            out.append(("address-held-twice", f"event {i}: one address in the inventory for two sessions: {inv}", i))
+        ghosts = sorted(set(inv) - live)
+        if ghosts:
+            out.append(("address-held-by-no-session", f"event {i} ({it.get('op')}/{it.get('kind', '')}): addresses held for sessions that do not exist {ghosts}", i))
+        for c_, m in replies_of(o):
+            if m.get("type") == P.SE_RSP and m.get("cause") == P.CAUSE_ACCEPTED:
+                for cp in m.get("created", []):
+                    if "ueip" in cp:
+                        u = cp["ueip"]
+                        if not (base < u < base + size - 1):
+                            out.append(("address-out-of-range", f"event {i}: UE address {u} outside the pool or its network/broadcast address", i))
+                        holders = [s["lseid"] for s in o["store"] for p in s["pdrs"] if p["alloc_ip"] and p["ue"] == u]
+                        if len(set(holders)) > 1:
+                            out.append(("address-given-twice", f"event {i}: UE address {u} is held by sessions {sorted(set(holders))}", i))
+            if m.get("type") == P.SE_RSP and m.get("cause") not in (None, P.CAUSE_ACCEPTED) and it.get("expect") == "accept":
+                # refusal only when every address is held
+                want_alloc = any(p.get("ue") == "chv4" for p in it.get("pdrs", []))
+                if want_alloc and len(live) < size - 2 and pools.get("ip_free", 0) == 0:
+                    out.append(("refused-while-not-all-held", f"event {i}: allocation refused with {len(live)} live sessions on a pool of {size - 2}", i))
     return out
